@@ -2,7 +2,8 @@
    value, the gradient is the gradient of the straight-through surrogate.
    Statements only; proofs in Quant/Grad.v over the expression language of Base/Texp.v. *)
 From Coq Require Import ZArith List Bool.
-From QV Require Import Base.ZQ Base.FL Base.Texp Quant.Grad.
+From QV Require Import Base.ZQ Base.FL Base.Texp Quant.Grad Link.RetLink.
+From QVGen Require Import RetGen.
 Open Scope Z_scope.
 
 (* for EVERY surrogate expression s, factor f and quantized expression q *)
@@ -70,3 +71,38 @@ Example C06_nonvacuous :
   let e := qtanh_expr (8, 1) (-1, 1) (7, 8) in
   req (grad (1, 2) e) rone = true /\ req (grad (15, 16) e) rzero = true /\ req (val (3, 10) e) (1, 4) = true.
 Proof. vm_compute. repeat split. Qed.
+
+(* ---- the return expressions of the quantizer classes as /repo has them now (coq/gen/RetGen.v, regenerated on every run):
+   s is whatever differentiable surrogate the method built, q whatever quantized value, f the noise factor ---- *)
+Theorem C06_ret_translation_ok : ret_translation_ok = true.
+Proof. exact link_ret_ok. Qed.
+Theorem C06_code_quantized_bits_return : forall x s q f,
+  req (grad x (gen_ret_quantized_bits_ste s q f)) (grad x s) = true /\
+  req (grad x (gen_ret_quantized_bits_nonste s q f)) (rmul (rsub rone f) (grad x s)) = true.
+Proof. intros; split; [apply link_ret_quantized_bits_ste | apply link_ret_quantized_bits_nonste]. Qed.
+Print Assumptions C06_code_quantized_bits_return.
+Theorem C06_code_quantized_relu_return : forall x s q f,
+  req (grad x (gen_ret_quantized_relu_ste s q f)) (grad x s) = true /\
+  req (grad x (gen_ret_quantized_relu_nonste s q f)) (rmul (rsub rone f) (grad x s)) = true.
+Proof. intros; split; [apply link_ret_quantized_relu_ste | apply link_ret_quantized_relu_nonste]. Qed.
+Print Assumptions C06_code_quantized_relu_return.
+Theorem C06_code_quantized_po2_return : forall x s q f,
+  req (grad x (gen_ret_quantized_po2_ste s q f)) (grad x s) = true /\
+  req (grad x (gen_ret_quantized_po2_nonste s q f)) (rmul (rsub rone f) (grad x s)) = true.
+Proof. intros; split; [apply link_ret_quantized_po2_ste | apply link_ret_quantized_po2_nonste]. Qed.
+Print Assumptions C06_code_quantized_po2_return.
+Theorem C06_code_quantized_relu_po2_return : forall x s q f,
+  req (grad x (gen_ret_quantized_relu_po2_ste s q f)) (grad x s) = true /\
+  req (grad x (gen_ret_quantized_relu_po2_nonste s q f)) (rmul (rsub rone f) (grad x s)) = true.
+Proof. intros; split; [apply link_ret_quantized_relu_po2_ste | apply link_ret_quantized_relu_po2_nonste]. Qed.
+Print Assumptions C06_code_quantized_relu_po2_return.
+Theorem C06_code_binary_ternary_bernoulli_return : forall x s q f,
+  req (grad x (gen_ret_binary_plain s q f)) (grad x s) = true /\ req (grad x (gen_ret_ternary_plain s q f)) (grad x s) = true /\
+  req (grad x (gen_ret_bernoulli_plain s q f)) (grad x s) = true.
+Proof. intros; repeat split; [apply link_ret_binary | apply link_ret_ternary | apply link_ret_bernoulli]. Qed.
+Print Assumptions C06_code_binary_ternary_bernoulli_return.
+Theorem C06_code_through_helpers_return : forall x s q f,
+  req (grad x (gen_ret_sign_through_plain s q f)) (grad x s) = true /\ req (grad x (gen_ret_ceil_through_plain s q f)) (grad x s) = true /\
+  req (grad x (gen_ret_floor_through_plain s q f)) (grad x s) = true.
+Proof. intros; repeat split; [apply link_ret_sign_through | apply link_ret_ceil_through | apply link_ret_floor_through]. Qed.
+Print Assumptions C06_code_through_helpers_return.
